@@ -223,24 +223,15 @@ def rule_update_index_guard(ctx, cfg='prod-all'):
 
 
 # ---------------------------------------------------------------------------------- RF-T size thresholds
-# Branches that compare a length / count with a literal constant.  The drafts define behaviour uniformly in the number and size of
-# messages, headers and indexes; the only size-dependent decisions they contain are listed here.  Any other such branch is a
-# special case for some sizes that no fixture vector visits.
+# The drafts define behaviour uniformly in the number of messages, indexes and generators; the only count-dependent decisions in which
+# both outcomes can succeed are listed here.  Any other such branch (or constant-size partition of a list) is a special case for some
+# sizes that no fixture vector visits.  Guards (one outcome can only fail) and octet-string lengths are not special cases in this sense.
 THRESHOLDS = {
     ('bbsplus::blind::<impl schemes::generics::BlindSignature<schemes::algorithms::BBSplus<CS>>>::blind_sign', 0): 'absent commitment (empty octet string)',
-    ('bbsplus::commitment::BBSplusCommitment::from_bytes', 48): 'framing: commitment point',
-    ('bbsplus::keys::key_gen', 32): 'KeyGen: key_material >= 32',
-    ('bbsplus::keys::key_gen', 65535): 'KeyGen: key_info <= 65535',
-    ('bbsplus::proof::BBSplusPoKSignature::from_bytes', 272): 'framing: minimal proof',
-    ('bbsplus::proof::BBSplusPoKSignature::from_bytes', 0): 'framing: whole scalars',
-    ('bbsplus::proof::BBSplusZKPoK::from_bytes', 64): 'framing: minimal commitment proof',
-    ('bbsplus::proof::BBSplusZKPoK::from_bytes', 0): 'framing: whole scalars',
-    ('utils::util::bbsplus_utils::calculate_blind_challenge', 0): 'at least one generator',
-    ('utils::util::bbsplus_utils::hash_to_scalar', 255): 'DST <= 255',
     ('utils::util::bbsplus_utils::serialize', 0): 'empty array',
     ('utils::util::bbsplus_utils::i2osp', 8): 'I2OSP width vs usize width',
     ('utils::util::bbsplus_utils::i2osp', 0): 'I2OSP overflow test',
-    ('bbsplus::commitment::<impl schemes::generics::Commitment<schemes::algorithms::BBSplus<CS>>>::deserialize_and_validate_commit', 0): 'absent commitment',
+    ('utils::util::bbsplus_utils::calculate_blind_challenge', 0): 'at least one generator',
 }
 
 
@@ -248,14 +239,70 @@ PARTITION_CALLS = ('::chunks', '::chunks_exact', '::chunks_mut', '::chunks_exact
                    '::split_at_checked', 'Iterator::take', 'Iterator::skip', 'Iterator::step_by', 'Ord::min', 'Ord::max', 'cmp::min', 'cmp::max', '::truncate',
                    '::split_off', '::resize', '::array_chunks', '::first_chunk', '::split_first_chunk', '::last_chunk', '::split_last_chunk')
 PARTITIONS = {
-    ('bbsplus::proof::BBSplusPoKSignature::from_bytes', 'chunks_exact', 32): 'framing: one 32-byte scalar per undisclosed message',
-    ('bbsplus::proof::BBSplusZKPoK::from_bytes', 'chunks_exact', 32): 'framing: one 32-byte scalar per committed message',
+    # (owner, callee, size): reason - none on the pinned tree: the only constant-size partitions are 32-byte scalar framings of octet strings
 }
 
 
-def rule_size_thresholds(ctx, cfg='prod-all', scope=('bbsplus::', 'utils::util::bbsplus_utils', 'utils::message::bbsplus_message', 'utils::util::get_remaining')):
-    prog, za = ctx.prog(cfg), ctx.zone(cfg)
+def _is_byte_len_sym(zf, sym):
+    """`len:<container>` of a container of octets (framing of encodings is decided exactly by RF-E / RF-L / RF-N, not here)"""
+    if not sym or not sym.startswith(('len:', 'lenat')):
+        return False
+    if sym.startswith('lenat'):
+        return False
+    nm = sym[4:].split('.')
+    body = zf.body
+    if nm[0].startswith('_') and nm[0][1:].isdigit():
+        ty = body.local_ty(int(nm[0][1:]))
+    else:
+        k = body.param_index(nm[0])
+        if k is None:
+            return False
+        ty = body.local_ty(k)
+    if len(nm) > 1:
+        return False
+    ty = ty.replace('&mut ', '').lstrip('&').strip()
+    for pre in ('std::option::Option<', ):
+        if ty.startswith(pre):
+            ty = ty[len(pre):].lstrip('&').strip()
+    return ty.startswith(('[u8', 'std::vec::Vec<u8', 'str', 'std::string::String'))
+
+
+def _success_sides(body, fd, sw):
+    """how many distinct successors of switch block sw can reach a block that builds a success value"""
+    acc = {bi for (bi, kind, extra) in accept_blocks(fd)}
+    if not acc or not body.local_ty(0).startswith(('std::result::Result', 'std::option::Option', 'bool')):
+        acc = set(body.exits)       # a function that cannot fail: every return is a success
+    t = body.blocks[sw]['term']
+    succs = []
+    for v, x in t['targets']:
+        if x not in succs:
+            succs.append(x)
+    if t.get('otherwise') is not None and t['otherwise'] not in succs:
+        succs.append(t['otherwise'])
     n = 0
+    for s0 in succs:
+        seen, st, hit = set(), [s0], False
+        while st and not hit:
+            x = st.pop()
+            if x in seen or body.blocks[x]['cleanup']:
+                continue
+            seen.add(x)
+            if x in acc:
+                hit = True
+                break
+            st.extend(body.succ[x])
+        n += 1 if hit else 0
+    return n
+
+
+def rule_size_thresholds(ctx, cfg='prod-all', scope=('bbsplus::', 'utils::util::bbsplus_utils', 'utils::message::bbsplus_message', 'utils::util::get_remaining')):
+    """A *size special case* is a branch on `count OP literal` both of whose outcomes can still end in success, or a partition of a list at a
+    literal size: vectors on either side are processed by different code, which no fixture sees unless it happens to cross the literal.
+    Exempt by construction: guards (one outcome can only fail - what they accept is decided by RF-E / RF-L / RF-F), and lengths of octet
+    strings (framing: RF-E / RF-N).  Every remaining special case must be one the drafts define (table)."""
+    prog, za, eng = ctx.prog(cfg), ctx.zone(cfg), ctx.eng(cfg)
+    n = 0
+    n_all = 0
     n_part = 0
     for p, b in sorted(prog.bodies.items()):
         if b.from_expansion or not p.startswith(scope):
@@ -263,6 +310,7 @@ def rule_size_thresholds(ctx, cfg='prod-all', scope=('bbsplus::', 'utils::util::
         if b.kind != 'Closure':
             za.summary(p)
         zf = za.zf(p)
+        fd = eng.fndep(p)
         owner = p if b.kind != 'Closure' else b.j.get('parent_fn', p)
         for bi, blk in enumerate(b.blocks):
             if blk['cleanup']:
@@ -292,24 +340,38 @@ def rule_size_thresholds(ctx, cfg='prod-all', scope=('bbsplus::', 'utils::util::
                 if d[0] == 'assign' and d[2]['rv']['k'] == 'unop' and d[2]['rv']['op'] == 'Not' and d[2]['rv']['a']['k'] in ('copy', 'move'):
                     l = d[2]['rv']['a']['pl']['l']
                     continue
-                if d[0] == 'call' and (d[2].get('callee') or '').endswith(('::is_empty',)):
-                    found.append(('len', 0))
+                if d[0] == 'call' and (d[2].get('callee') or '').endswith(('::is_empty',)) and d[2]['args'] and d[2]['args'][0]['k'] in ('copy', 'move'):
+                    ln = zf.len_of_place(d[2]['args'][0]['pl'])
+                    found.append(((ln[0] if ln else None) or 'len', 0))
                     break
                 break
             for sym, k in found:
                 if sym is not None and sym.startswith('i'):
                     continue      # loop induction variable against a constant: not a size decision
+                n_all += 1
+                if _is_byte_len_sym(zf, sym):
+                    continue
+                if b.kind != 'Closure' and _success_sides(b, fd, bi) < 2:
+                    continue      # a guard: one outcome can only fail
                 n += 1
                 ok = (owner, k) in THRESHOLDS
                 yield Ob('RF-T', '%s#threshold:%s' % (owner, k), ok,
-                         'a branch compares a length / count with the literal %s: size-dependent special cases must be the ones of the drafts' % k,
+                         'both outcomes of a comparison of a count with the literal %s can succeed: size-dependent special cases must be the ones of the drafts' % k,
                          '%s L%s' % (b.file(), t.get('line')), fact={'term': sym, 'constant': k, 'reason': THRESHOLDS.get((owner, k))},
                          expected='tabled threshold')
         # partitioning by a constant size: chunks(N), split_at(N), take(N), len.min(N) ... treat sizes below and above N differently without a branch
         for bi, t in b.calls():
             cal = t.get('callee') or ''
-            if not cal.endswith(PARTITION_CALLS):
+            if not cal.endswith(PARTITION_CALLS) or not t['args']:
                 continue
+            a0 = t['args'][0]
+            if a0['k'] in ('copy', 'move'):
+                ty0 = b.local_ty(a0['pl']['l']).replace('&mut ', '').lstrip('&').strip()
+                if ty0.startswith(('[u8', 'std::vec::Vec<u8', 'std::slice::Iter<\'_, u8', 'str')):
+                    continue          # framing of an octet string
+                t0 = zf.term_op(a0)
+                if t0 is not None and _is_byte_len_sym(zf, t0[0]):
+                    continue          # len(octets).min(N) ...
             for a in t['args'][1:]:
                 tt = zf.term_op(a)
                 if tt is None or tt[0] is not None:
@@ -321,8 +383,8 @@ def rule_size_thresholds(ctx, cfg='prod-all', scope=('bbsplus::', 'utils::util::
                 yield Ob('RF-T', '%s#partition:%s(%s)' % (owner, short, k), ok,
                          'a list is partitioned at the literal size %s by %s: inputs shorter and longer than that are processed differently' % (k, short),
                          '%s L%s' % (b.file(), t.get('line')), fact={'callee': cal, 'constant': k, 'reason': PARTITIONS.get((owner, short, k))}, expected='tabled partition')
-    yield Ob('RF-T', 'crate#threshold-census', n >= 10, 'size-threshold branches found', '', fact=n, expected='>= 10', nontrivial=False)
-    yield Ob('RF-T', 'crate#partition-census', n_part >= 2, 'constant-size partitions found (the two 32-byte scalar framings)', '', fact=n_part, expected='>= 2', nontrivial=False)
+    yield Ob('RF-T', 'crate#threshold-census', n_all >= 10, 'comparisons of a count / length with a literal examined', '',
+             fact={'examined': n_all, 'special_cases (both outcomes can succeed, not an octet length)': n, 'partitions': n_part}, expected='>= 10 examined', nontrivial=False)
 
 
 # ---------------------------------------------------------------------------------- checked constructors
@@ -389,6 +451,13 @@ RESULT_BINDING = {
                                  'disclosed_commitment_indexes', 'secret_prover_blind'],
     _T.COM + 'commit': ['committed_messages'],
 }
+_CLSIG = 'cl03::signature::<impl schemes::generics::Signature<schemes::algorithms::CL03<CS>>>::'
+_CLBSIG = 'cl03::blind::<impl schemes::generics::BlindSignature<schemes::algorithms::CL03<CS>>>::'
+RESULT_BINDING_CL03 = {
+    _CLSIG + 'sign': ['pk', 'sk', 'a_bases', 'message'],
+    _CLSIG + 'sign_multiattr': ['pk', 'sk', 'a_bases', 'messages'],
+    _CLBSIG + 'blind_sign': ['pk', 'sk', 'zkpok'],
+}
 # "value unchanged" shortcuts are accepted only under an exact library equality of the two inputs
 _EXACT_EQ = ('core::slice::cmp::', 'std::cmp::PartialEq::eq', 'core::cmp::PartialEq::eq', 'std::vec::', 'alloc::vec::', 'core::array::equality::')
 
@@ -408,12 +477,19 @@ def rule_result_binding(ctx, table=None, cfg='prod-all', only=None):
         body = resolve_fn(prog, suffix)
         fd = eng.fndep(body.path)
         sites = []
+        fallible = body.local_ty(0).startswith(('std::result::Result', 'std::option::Option'))
         for bi, blk in enumerate(body.blocks):
             if blk['cleanup']:
                 continue
             for s in blk['stmts']:
                 if s['k'] == 'assign' and s['dst']['l'] == 0 and not s['dst'].get('p') and s['rv']['k'] == 'agg' and s['rv'].get('variant') == 'Ok':
                     sites.append((bi, s, fd.read_op(s['rv']['ops'][0]) if s['rv']['ops'] else set()))
+                elif not fallible and s['k'] == 'assign' and s['dst']['l'] == 0 and not s['dst'].get('p') and s['rv']['k'] in ('agg', 'use'):
+                    # infallible constructor (CL03 sign returns Self): the value built here is the result
+                    at = set()
+                    for o in (s['rv'].get('ops') or []) + ([s['rv']['op']] if s['rv']['k'] == 'use' else []):
+                        at |= fd.read_op(o)
+                    sites.append((bi, s, at))
             t = blk['term']
             if t['k'] == 'call' and t['dst']['l'] == 0 and not t['dst'].get('p') and 'from_residual' not in (t.get('callee') or '') and 'panic' not in (t.get('callee') or ''):
                 at = set()
